@@ -517,6 +517,21 @@ class Gen:
                 parts.append(self.var(f"s1|{flt[self.d(len(flt))]}|{flt[self.d(len(flt))]}"))
                 parts.append(self.tag(f"if n1 is {tst[self.d(len(tst))]} or s1 is {tst[self.d(len(tst))]}") + n + self.tag("endif"))
             return "".join(parts)
+        if self.chance(1, 4):
+            # a name with a special meaning in that kind of body is (legally) ASSIGNED there; later templates that use
+            # the name in its special meaning must compile as they always do
+            P.feat("bias_special_name_assigned")
+            m = self.fresh("m")
+            which = self.d(4)
+            if which == 0:
+                return (self.tag(f"macro {m}(a)") + self.tag("set kwargs = {'a': a}") + self.var("kwargs|length")
+                        + self.tag("endmacro") + self.var(f"{m}(1)"))
+            if which == 1:
+                return (self.tag(f"macro {m}(a)") + self.tag("set varargs = [a]") + self.tag("set caller = a") + self.var("varargs|length ~ caller")
+                        + self.tag("endmacro") + self.var(f"{m}(2)"))
+            if which == 2:
+                return self.tag("for q in [1, 2]") + self.tag("set loop = q") + self.var("loop") + self.tag("endfor")
+            return self.tag("set self = 1") + self.tag("set super = 2") + self.var("self ~ super")
         P.feat("bias_macro_special")
         m = self.fresh("m")
         params = ", ".join(f"{n}={i}" for i, n in enumerate(names))
@@ -1161,7 +1176,6 @@ MICRO_PAIRS = [
     ("range(n1 % 4)|list|string", "range(1, n2 % 5 + 2, 2)|list|string"),
     ("cycler('a', 'b').next()", "joiner('|')() ~ '.'"),
     ("namespace(x=n1).x", "dict(a=s1)|tojson"),
-    ("lipsum(1, false, 3, 5)|length > 0", "lipsum(2, true, 2, 4)|length > 0"),
 ]
 
 
@@ -1205,6 +1219,10 @@ MICRO_MODULES = [
     ("{% macro j(xs) %}{{ xs|join('<br>'|safe) }}{% endmacro %}{% macro k(s) %}{% filter upper %}{{ s }}{% endfilter %}{% endmacro %}",
      "{% from 'mod' import j, k %}{{ j(l2) }}", "{% from 'mod' import j, k %}{{ k(s1) }}{{ j(['<x>']) }}"),
     ("x{{ gn }}y", "[{% include 'mod' without context %}]", "{% import 'mod' as m %}{{ m }}|{% include 'mod' without context %}"),
+    # (tagged module_eval_ctx by micro_program: an autoescape block in a module macro is the known finding KF-C37-1; what
+    # is still judged strictly: nobody's exception may be replaced and nobody may be left hanging)
+    ("{% macro e(q) %}{% autoescape true %}{{ gf(q) }}<{{ q }}>{% endautoescape %}{% endmacro %}",
+     "{% from 'mod' import e %}{{ e(1) }}", "{% from 'mod' import e %}{{ e(2) }}{{ e(3) }}"),
 ]
 
 
@@ -1216,6 +1234,8 @@ def micro_program(tape, stream: str = "w") -> Program:
         if tape.draw(2, stream):
             a_, b_ = b_, a_
         P.templates = {"mod": mod, "main": a_, "m1": b_}
+        if "{% autoescape" in mod:
+            P.tags.add("module_eval_ctx")
         P.entry_points = ["main", "m1"]
         P.feat("micro")
         P.feat("micro_module")
